@@ -1365,7 +1365,7 @@ class ExpectSpec(Spec):
 
     def curated(self):
         out = []
-        for src, mode, exp, kind in list(self.CUR) + thm_instances.instances(self.cls_prefix):
+        for src, mode, exp, kind in list(self.CUR) + thm_instances.instances(self.cls_prefix) + (thm_instances.instances('C08q') if self.cls_prefix == 'C08' else []):
             c = H([call(src, safeMode=mode, reset=True, cb=True)])
             c['meta'] = {'expect': exp, 'kind': kind}
             out.append(c)
@@ -1462,9 +1462,13 @@ class C08(ExpectSpec):
                   'C08_comment_block_renders_nothing (a comment block renders to the empty string and leaves the session unchanged, whatever it '
                   'holds), C08_header with C08_header_level (the document "#...# title", one to six hash signs, renders to <hK>title</hK> with K the number '
                   'of hash signs, session unchanged: the header pattern has one derivation on the line, the template is evaluated with the cumulative '
-                  'expansion rules of replaceMatch, the marker text is replaced by its length); the other kinds (quote and division blocks, HTML '
-                  'blocks, definitions) are decided by the block-grammar oracle '
-                  'and correspondence.')
+                  'expansion rules of replaceMatch, the marker text is replaced by its length); C08_header_then_rest / C08_code_block_then_rest / '
+                  'C08_quote_block_then_rest (in order, with verified kinds: a header, a fenced code block or a quote block as the first block of ANY '
+                  'reader renders to its element and then the rest of the reader from the session it left; the quote block is a container: its '
+                  'element wraps whatever the nested document render makes of its content), C08_quiet_after_code, C08_code_then_paragraph, '
+                  'C08_header_then_paragraph, C08_quote_paragraph_document (a quote block holding any paragraph line, from the text through the '
+                  'reader, the nested render being the document renderer itself); division blocks, HTML blocks and definitions are decided by '
+                  'the block-grammar oracle and correspondence.')
     rule = ('documents from a block grammar (paragraph, header, fenced code, indented, quote paragraph, quote/division blocks nested to depth 3 '
             'with distinct delimiters and optional class names, HTML block, comments, definitions; 1-2 blank lines) in every safe mode; '
             'expected HTML predicted from the block list; non-trivial = more than one block kind')
